@@ -94,6 +94,10 @@ type retryItem struct {
 	retryAt    time.Time // time at which to retry
 	numRetries int       // number of retries attempted (for calculating backoff)
 	lastError  error
+
+	// errorStatusID is the ID of the error status that was committed to the
+	// object when this retry was queued (0 if none, e.g. for deletes).
+	errorStatusID uint64
 }
 
 // Wait returns a channel that is closed when there is an item to retry.
@@ -180,6 +184,14 @@ func (rq *retries) Add(obj any, rev statedb.Revision, origRev statedb.Revision, 
 		rq.resetTimer()
 	}
 
+}
+
+// SetErrorStatusID remembers the ID of the error status committed for the
+// object that is queued for retry.
+func (rq *retries) SetErrorStatusID(obj any, id uint64) {
+	if item, ok := rq.items[string(rq.objectToKey(obj))]; ok {
+		item.errorStatusID = id
+	}
 }
 
 func (rq *retries) Clear(obj any) {
